@@ -346,7 +346,8 @@ func (i *interpreter) hashHex(s value) value {
 	key := "hashshape:" + h.e
 	if !p.declSet[key] {
 		p.declSet[key] = true
-		p.lazy = append(p.lazy, "(str.in_re "+h.e+" ((_ re.loop 64 64) (re.union (re.range \"0\" \"9\") (re.range \"a\" \"f\"))))")
+		// (the digest's alphabet is kept as a syntactic fact only: asserting
+		// [0-9a-f]{64} makes every model query with a digest time out)
 		p.pc = append(p.pc, "(= (str.len "+h.e+") 64)",
 			"(=> (> (str.len "+tStr(s)+") 0) (not (= "+h.e+" \"e3b0c44298fc1c149afbf4c8996fb92427ae41e4649b934ca495991b7852b855\")))")
 		i.ex.noteAssumption("SHA-256 is an uninterpreted function; the only collision-freeness assumed is that non-empty content does not hash to the digest of the empty string")
